@@ -1,6 +1,97 @@
-From PyDcop Require Import Base Net M_SyncMixin.
-Theorem sync_no_error : True. Proof. exact I. Qed.
-Theorem sync_round_inputs : True. Proof. exact I. Qed.
-Theorem sync_rounds_consecutive : True. Proof. exact I. Qed.
-Theorem sync_neighbours_one_apart : True. Proof. exact I. Qed.
-Theorem sync_never_stuck : True. Proof. exact I. Qed.
+(* Prop_C08.v -- C08: synchronous computations run in proper rounds under any asynchronous
+   order.  Statements only; every proof is `exact` of a lemma of P_SyncMixin.
+
+   Setting: [nbrs] any neighbour relation with [graph_ok] (duplicate-free, symmetric,
+   irreflexive neighbour lists), [G] any hosted algorithm with [algo_ok] (each round it
+   addresses each neighbour at most once, and only neighbours: the mixin's documented
+   contract), [sync_proto nbrs G] the model of SynchronousComputationMixin over the network
+   of Net.v, any schedule of Start / per-channel-FIFO Deliver actions, any start order. *)
+From PyDcop Require Import Base Net M_SyncMixin P_SyncMixin.
+Local Open Scope nat_scope.
+
+(* neither ComputationException branch (nor the ValueError of _switch_cycle) is reachable *)
+Theorem sync_no_error : forall A P nbrs (G : algo A P), graph_ok nbrs -> algo_ok nbrs G ->
+  forall sched n k, ~ In (EvRaise n k) (snd (run (sync_proto nbrs G) sched)).
+Proof. exact (@sync_no_error_l). Qed.
+
+(* the on_new_cycle call with id k at node n is handed exactly one entry per neighbour a
+   that posted an algorithm payload with stamp k (the payload it posted), and nothing for a
+   neighbour that only sent the implicit synchronisation; no sender appears twice *)
+Theorem sync_round_inputs : forall A P nbrs (G : algo A P), graph_ok nbrs -> algo_ok nbrs G ->
+  forall cf act n k msgs,
+    reachable (sync_proto nbrs G) cf ->
+    In (EvCycle n k msgs) (snd (step (sync_proto nbrs G) cf act)) ->
+    k = cur (w_st (nodes cf n)) /\ NoDup (map fst msgs) /\ incl (map fst msgs) (nbrs n) /\
+    (forall a, In a (nbrs n) ->
+       exists x, In (k, n, x) (outlog (w_st (nodes cf a))) /\ zlookup a msgs = x).
+Proof. exact (@sync_round_inputs_l). Qed.
+
+(* ... where the log holds exactly one entry per (stamp, target): "the" message a posted *)
+Theorem sync_log_unique : forall A P nbrs (G : algo A P), graph_ok nbrs -> algo_ok nbrs G ->
+  forall cf a k t x y, reachable (sync_proto nbrs G) cf ->
+    In (k, t, x) (outlog (w_st (nodes cf a))) -> In (k, t, y) (outlog (w_st (nodes cf a))) -> x = y.
+Proof. exact (@sync_log_unique_l). Qed.
+
+(* every computation advances round by round: its on_new_cycle calls carry ids 0,1,2,... *)
+Theorem sync_rounds_consecutive : forall A P nbrs (G : algo A P), graph_ok nbrs -> algo_ok nbrs G ->
+  forall sched x,
+    cycle_ids x (snd (run (sync_proto nbrs G) sched))
+      = seq 0 (count_cyc x (snd (run (sync_proto nbrs G) sched))) /\
+    cur (w_st (nodes (fst (run (sync_proto nbrs G) sched)) x))
+      = count_cyc x (snd (run (sync_proto nbrs G) sched)).
+Proof. exact (@sync_rounds_consecutive_l). Qed.
+
+Theorem sync_neighbours_one_apart : forall A P nbrs (G : algo A P), graph_ok nbrs -> algo_ok nbrs G ->
+  forall cf a b, reachable (sync_proto nbrs G) cf -> In a (nbrs b) ->
+    w_running (nodes cf a) = true -> w_running (nodes cf b) = true ->
+    cur (w_st (nodes cf a)) <= S (cur (w_st (nodes cf b))).
+Proof. exact (@sync_neighbours_one_apart_l). Qed.
+
+(* no deadlock: once all computations of a neighbour-closed set have started, some message is
+   always in flight, so a fair schedule keeps every one of them switching cycles *)
+Theorem sync_never_stuck : forall A P nbrs (G : algo A P), graph_ok nbrs -> algo_ok nbrs G ->
+  forall cf V, reachable (sync_proto nbrs G) cf ->
+    (forall x, In x V -> w_running (nodes cf x) = true) ->
+    (forall x, In x V -> incl (nbrs x) V) ->
+    (exists x, In x V /\ nbrs x <> []) ->
+    ~ (forall a b, chan cf a b = []).
+Proof. exact (@sync_never_stuck_l). Qed.
+
+Print Assumptions sync_no_error.
+Print Assumptions sync_round_inputs.
+Print Assumptions sync_never_stuck.
+
+(* ---- non-vacuity: a path 0 - 1 - 2 with a table-driven algorithm satisfies the hypotheses
+   and a concrete asynchronous schedule makes node 1 run on_new_cycle with both payloads *)
+Definition ex_graph : list (node * list node) := [(0, [1]); (1, [0; 2]); (2, [1])]%Z.
+Definition ex_plan : plan_t :=
+  [(0, [([(1, 7)], [])]); (1, [([(0, 5); (2, 6)], []); ([], [(2, 9)])]); (2, [([(1, 8)], [])])]%Z.
+
+Ltac case_eqb a :=
+  repeat match goal with
+         | |- context [Z.eqb a ?c] => destruct (Z.eqb_spec a c); subst; simpl
+         | H : context [Z.eqb a ?c] |- _ => destruct (Z.eqb_spec a c); subst; simpl in H
+         end.
+Ltac nodup_list := repeat (constructor; [simpl; intuition congruence|]); try constructor.
+
+Example c08_graph_ok : graph_ok (nbrs_of ex_graph).
+Proof.
+  unfold graph_ok, nbrs_of, ex_graph, zlookup. split; [|split].
+  - intros a. simpl. case_eqb a; nodup_list.
+  - intros a b. simpl. intros H. case_eqb b; simpl in H; intuition (subst; simpl; auto).
+  - intros a. simpl. case_eqb a; simpl; intuition congruence.
+Qed.
+
+Example c08_algo_ok : algo_ok (nbrs_of ex_graph) (table_algo ex_plan).
+Proof.
+  unfold algo_ok, targets_ok, table_algo, plan_at, nbrs_of, ex_graph, ex_plan, zlookup; simpl. split.
+  - intros n _. case_eqb n; (split; [nodup_list | intros y Hy; simpl in *; intuition]).
+  - intros n _ k _. case_eqb n; destruct k as [|[|k]]; simpl;
+      (split; [nodup_list | intros y Hy; simpl in *; intuition]).
+Qed.
+
+Example c08_nonvacuous :
+  let P := sync_proto (nbrs_of ex_graph) (table_algo ex_plan) in
+  map ev_to_o (snd (run P [Start 0; Start 2; Deliver 0 1; Start 1; Deliver 2 1; Deliver 0 1]%Z))
+    = [OCycle 1 0 [(2, 8); (0, 7)]]%Z.
+Proof. vm_compute. reflexivity. Qed.
